@@ -29,9 +29,22 @@ RULE = (
     "fractional positive matrix and a dense signed matrix with zeros, Kernel2D.convolved_array_from / "
     "_with_mask_from, and the simulator round trip; ('frame') per frame/kernel pair the whole-frame convolutions "
     "incl. the frame edge, padded/trimmed unmasked blurring and the simulator with an un-normalised PSF; ('even') "
-    "every kernel shape in 1..6 x 1..6 with an even side must be rejected. non-trivial = 'op' case whose kernel is "
+    "every kernel shape in 1..6 x 1..6 with an even side must be rejected; ('dyn') per odd kernel shape in {1,3,5,7,9}^2 "
+    "a (2kh+5)x(2kw+4) frame with images of large dynamic range and exact zeros (a 1e4 / 1e12 pixel cut by the frame "
+    "corner + O(1) and 5e-4 pixels further away than the kernel reaches; dense signed field behind an exact-zero band "
+    "with a -1e4 / -1e12 pixel; basis images x {1, 1e12} on first/middle/last pixel), three masks (whole interior, block "
+    "around the faint pixels only, two components with a hole): Kernel2D.convolved_array_from / _with_mask_from, "
+    "unmasked_blurred_array_from, Convolver.convolve_image and the noise-free simulator round trip, EVERY pixel "
+    "compared with a shift-and-add reference within 1e-12 x sum|K||image| under that pixel's own footprint (exact "
+    "where it sees only zeros); ('big') masks with more unmasked pixels than an int8 / uint8 / int16 / uint16 slim "
+    "index can address (>127, >255, >32767, >65535 by more than two block rows; filled block and block with a lattice "
+    "of holes + a masked row = two components, framed by exactly the kernel half-widths): complete operator "
+    "extraction by kh*kw comb images (sources on a (kh,kw) lattice have disjoint footprints; signed distinct weights, "
+    "coefficients 1/-2/5e-4) through convolve_image (image + blurring term), convolve_image_no_blurring and "
+    "convolve_mapping_matrix (comb columns + dense signed column), a dense image with garbage outside, both whole-frame "
+    "convolutions and the simulator's data on the large frame. non-trivial = 'op' case whose kernel is "
     "larger than 1x1 and whose unmasked set has >=2 pixels and is not a filled rectangle (the suite's fixtures are "
-    "filled centred blocks and one cross)"
+    "filled centred blocks and one cross), 'dyn' case with a kernel larger than 1x1, every 'big' case"
 )
 ASSUMPTIONS = [
     "the blurring operator is bilinear in (kernel, image): a kernel with pairwise distinct non-zero signed entries x "
@@ -43,15 +56,39 @@ ASSUMPTIONS = [
     "level that makes them so), because it draws a Poisson deviate even when noise is switched off",
     "the simulator round trip uses PSFs that sum to one, except in the 'frame' cases which test exactly that the "
     "PSF handed to the simulator is the PSF the returned dataset fits with",
+    "'dyn'/'big' accuracy demand: the value of the convolution at a pixel is a finite sum of products K[i,j]*image[s] over "
+    "that pixel's kernel footprint, so 'equals the true convolution / zero residual' is read pixel-wise: the error at a "
+    "pixel must be small relative to the magnitude of the terms that define THAT pixel (1e-12 x sum|K||image| under its "
+    "footprint, >= 100 x the n*eps bound every direct summation of <= 81 products satisfies in any order), and exactly 0 "
+    "where every contributing pixel is 0. This was weighed against the weaker norm-wise reading (error small relative to "
+    "the brightest pixel of the whole frame, which an FFT-based evaluation meets): under that reading a bright pixel "
+    "further away than the kernel reaches changes the value of a faint pixel, contradicting the statement's own 'values "
+    "outside the mask and its blurring region never influence the result' and 'agrees at every pixel', an image of exact "
+    "zeros away from a star gets negative counts, and the residual of the generating image is O(eps*max|image|) instead "
+    "of the rounding of the pixel's own sum; the masked Convolver (direct scatter-add) meets the pixel-wise demand, and "
+    "the whole-frame convolution is stated to agree with it at every pixel, so the pixel-wise demand is the one adopted. "
+    "It is not stricter than direct summation can deliver: both library paths pass it on the unchanged tree",
+    "'big': the frame tables hold slim indexes, so the only size-dependent behaviour of otherwise size-oblivious "
+    "scatter code is the integer width of those tables; one mask family per width boundary reachable in memory (int8, "
+    "uint8, int16, uint16) represents all large masks; comb images extract every operator entry because the true "
+    "footprints of sources on a (kh,kw) lattice are disjoint and the weights are pairwise distinct (a mis-routed "
+    "contribution cannot cancel against another one)",
 ]
 BOUNDS = {
     "quick": "frames HxW with H,W in 1..6; odd kernels (kh,kw) in {1,3,5}^2 that fit; all 2^n-1 interior masks "
     "for every frame/kernel pair with n <= 12 interior cells (n = (H-kh+1)(W-kw+1); n <= 6 for the 1x1 kernel, n <= 10 for "
     "1xk / kx1 kernels on frames with more than 20 cells); "
-    "basis extraction with coefficient 1 + weighted images for -2 and 5e-4; 27 even kernel shapes",
+    "basis extraction with coefficient 1 + weighted images for -2 and 5e-4; 27 even kernel shapes; 'dyn': all 25 kernel "
+    "shapes {1,3,5,7,9}^2 (kernels A and |A|/sum), levels {1e4, 1e12}, 3 masks; 'big': index widths 127/255 x {block, "
+    "holes} x kernels {1x3,3x1,3x3,3x5,5x3}, width 32767: 3x3 block (183x182 pixels), 1x3 and 3x1 holes, "
+    "width 65535: 3x1 block (258x257 pixels), 1x3 holes (kernel A); blocks are the smallest s x s or (s+1) x s ones "
+    "exceeding the width by more than two block rows",
     "thorough": "frames H,W in 1..7; odd kernels {1,3,5,7}^2 that fit; all interior masks for every "
     "pair with n <= 14 interior cells (n <= 9 for the 1x1 kernel) plus the 6x6 frame with the 3x3 kernel (n = 16, "
-    "65 535 masks); every basis vector with every coefficient {1,-2,5e-4}; 27 even shapes",
+    "65 535 masks); every basis vector with every coefficient {1,-2,5e-4}; 27 even shapes; 'dyn': the same 25 shapes with "
+    "kernels A, B and |A|/sum; 'big': widths 127/255 x {block, holes} x kernels {1x3,3x1,3x3,3x5,5x3,5x5,7x7,1x7,7x1}, "
+    "width 32767 x {block, holes} x {1x3,3x1,3x3,3x5,5x3,5x5}, width 65535 x {block, holes} x {1x3,3x1,3x3} "
+    "(kernels A and B)",
 }
 
 
@@ -86,8 +123,54 @@ def _pairs(tier):
     return out
 
 
+# index-width classes of the slim-index tables: the largest slim index (n-1) exceeds what int8 / uint8 / int16 /
+# uint16 can hold (the next width, int32, needs 2**31 pixels and is out of reach)
+BIG_T = (127, 255, 32767, 65535)
+DYN_KS = (1, 3, 5, 7, 9)
+DYN_LEVELS = (1e4, 1e12)
+
+
+def _big_cases(tier, seed):
+    """('big') masks with more unmasked pixels than each integer width can index, filled block / block with holes
+    and two components; the slow ones (>= 32768 pixels) are few in the quick tier."""
+    full = 0 if tier == "quick" else 1
+    small_ks = [(1, 3), (3, 1), (3, 3), (3, 5), (5, 3)]
+    out = []
+    if tier == "quick":
+        out += [["big", 32767, 0, 3, 3, seed, 0], ["big", 32767, 1, 1, 3, seed, 0], ["big", 32767, 1, 3, 1, seed, 0],
+                ["big", 65535, 0, 3, 1, seed, 0], ["big", 65535, 1, 1, 3, seed, 0]]
+    else:
+        for T in BIG_T[2:]:
+            for holes in (0, 1):
+                for k in small_ks + [(5, 5)]:
+                    if T == 65535 and k[0] * k[1] > 9:
+                        continue
+                    out.append(["big", T, holes, k[0], k[1], seed, 1])
+    for T in BIG_T[:2]:
+        for holes in (0, 1):
+            for k in small_ks + ([] if tier == "quick" else [(5, 5), (7, 7), (1, 7), (7, 1)]):
+                out.append(["big", T, holes, k[0], k[1], seed, full])
+    return out
+
+
 def cases(tier, seed):
     seed = int(seed)
+    # the 'big' cases cost seconds each: one at the head of each of the first chunks, so they run side by side
+    big = _big_cases(tier, seed)
+    slow = [c for c in big if c[1] >= 32767]
+    rest = _cases_rest(tier, seed, [c for c in big if c[1] < 32767])
+    k = 0
+    for c in rest:
+        if slow and k % CHUNK == 0:
+            yield slow.pop(0)
+            k += 1
+        yield c
+        k += 1
+    for c in slow:
+        yield c
+
+
+def _cases_rest(tier, seed, big_small):
     for kh in range(1, 7):
         for kw in range(1, 7):
             if kh % 2 == 0 or kw % 2 == 0:
@@ -96,6 +179,11 @@ def cases(tier, seed):
     full = 0 if tier == "quick" else 1
     for (H, W), (kh, kw) in pairs:
         yield ["frame", H, W, kh, kw, seed]
+    for kh in DYN_KS:
+        for kw in DYN_KS:
+            yield ["dyn", kh, kw, seed, full]
+    for c in big_small:
+        yield c
     for (H, W), (kh, kw) in pairs:
         n = (H - kh + 1) * (W - kw + 1)
         allbits = sorted(range(1, 2 ** n), key=lambda b: (bin(b).count("1"), b))
@@ -167,6 +255,32 @@ def _close(got, want, scale=1.0):
     return dom.close(got, want, rtol=1e-9, atol=1e-12 * max(1.0, float(scale)))
 
 
+def _close_local(got, want, local):
+    """Pixel-wise accuracy relative to the terms that DEFINE that pixel: |got - want| <= 1e-12 * sum_k |K_k||image_k| over
+    the kernel footprint of the pixel (>= 100 x the rounding bound n*eps of summing <= 81 products in any order); exact
+    where the footprint sees only zeros."""
+    got = np.asarray(got, dtype=float)
+    want = np.asarray(want, dtype=float)
+    local = np.asarray(local, dtype=float)
+    if got.shape != want.shape or want.shape != local.shape:
+        return False
+    return bool(np.all(np.abs(got - want) <= 1e-12 * local))
+
+
+def _diff_local(got, want, local):
+    got = np.asarray(got, dtype=float)
+    want = np.asarray(want, dtype=float)
+    local = np.asarray(local, dtype=float)
+    if got.shape != want.shape or want.shape != local.shape:
+        return "shape %s vs %s" % (got.shape, want.shape)
+    if got.size == 0:
+        return "empty"
+    bad = ~(np.abs(got - want) <= 1e-12 * local)
+    k = int(np.flatnonzero(bad.ravel())[0]) if bad.any() else 0
+    return "%d of %d pixels off by more than 1e-12 x local magnitude; first at flat %d: got %.17g want %.17g, sum|K||image| under its footprint %.3g" % (
+        int(bad.sum()), bad.size, k, float(got.ravel()[k]), float(want.ravel()[k]), float(local.ravel()[k]))
+
+
 def _diff(got, want):
     got = np.asarray(got)
     want = np.asarray(want)
@@ -193,6 +307,10 @@ def run_case(case):
         run_frame(aa, v, *case[1:])
     elif kind == "op":
         run_op(aa, v, *case[1:])
+    elif kind == "dyn":
+        run_dyn(aa, v, *case[1:])
+    elif kind == "big":
+        run_big(aa, v, *case[1:])
     else:
         raise ValueError("unknown case kind %r" % (kind,))
     return v.result()
@@ -528,3 +646,272 @@ def _sim_roundtrip(aa, v, H, W, m, mask, bmask, name, K, img, sky, atol):
     v.ok(resid.shape == (n,) and dom.close(resid, np.zeros(n), atol=max(atol, 1e-11) * max(1.0, 4 * np.abs(K).sum())), "simulator-fit:residual",
          lambda: "frame %dx%d mask %s psf %s=%s: max |residual| %s" % (
              H, W, u.tolist(), name, K.tolist(), np.max(np.abs(resid)) if resid.size else resid.shape))
+
+
+# ----------------------------------------------------------------------------- 'dyn': large dynamic range, exact zeros
+
+
+def _reach_fast(m, kshape):
+    """reach region (see mc.ref.convolution.reach_region) by shift-and-OR, for large frames"""
+    H, W = m.shape
+    hy, hx = kshape[0] // 2, kshape[1] // 2
+    u = np.zeros((H + 2 * hy, W + 2 * hx), dtype=bool)
+    u[hy:hy + H, hx:hx + W] = ~m
+    near = np.zeros((H, W), dtype=bool)
+    for i in range(kshape[0]):
+        for j in range(kshape[1]):
+            near |= u[i:i + H, j:j + W]
+    return m & near
+
+
+def _dyn_frame(kh, kw):
+    return 2 * kh + 5, 2 * kw + 4
+
+
+def _dyn_images(seed, kh, kw, level):
+    """Non-negative / signed frame images with a large dynamic range and exact zeros.
+
+    'star': exact zeros except one pixel of value `level` next to the top-left corner (its footprint is cut by the frame
+    edge) and four distinct O(1) pixels near the bottom-right corner, further away than the kernel reaches.
+    'field': dense signed O(1) values on the bottom-right part, an exact-zero band of more than a kernel width between
+    it and a -level pixel on the frame's first row."""
+    H, W = _dyn_frame(kh, kw)
+    r = dom.rng(seed, "C03-dyn", kh, kw, level)
+    star = np.zeros((H, W))
+    star[1, 2 if W > 2 else 0] = level
+    fy, fx = H - kh // 2 - 2, W - kw // 2 - 2
+    star[fy, fx] = 1.0
+    star[fy + 1, fx + 1] = 0.5
+    star[fy - 1, fx] = np.round(r.uniform(0.1, 0.9), 3)
+    star[fy, fx - 1] = 5e-4
+    field = np.zeros((H, W))
+    dense = image_native(seed, H, W, salt=7)
+    field[kh + 3:, kw + 2:] = dense[kh + 3:, kw + 2:]
+    field[0, 1] = -level
+    return [("star", star), ("field", field)]
+
+
+def _dyn_masks(kh, kw):
+    """Masks of the 'dyn' frame (footprints inside the frame): whole interior; the block around the faint pixels only
+    (the bright pixel is then outside mask + blurring region); two components with a hole, one of them next to the
+    bright pixel."""
+    H, W = _dyn_frame(kh, kw)
+    hy, hx = kh // 2, kw // 2
+    out = []
+    m = np.ones((H, W), dtype=bool)
+    m[hy:H - hy, hx:W - hx] = False
+    out.append(("interior", m))
+    m = np.ones((H, W), dtype=bool)
+    m[H - hy - 4:H - hy, W - hx - 4:W - hx] = False
+    out.append(("faint-block", m))
+    m = np.ones((H, W), dtype=bool)
+    m[hy:hy + 2, hx:hx + 3] = False
+    m[H - hy - 3:H - hy, W - hx - 4:W - hx] = False
+    m[H - hy - 2, W - hx - 2] = True
+    out.append(("two-components", m))
+    return out
+
+
+def run_dyn(aa, v, kh, kw, seed, full=0):
+    """Whole-frame convolutions, the Convolver and the simulator on images with a large dynamic range and exact zeros,
+    every pixel compared with the shift-and-add reference relative to the LOCAL magnitude of the terms it sums."""
+    H, W = _dyn_frame(kh, kw)
+    KA, KB = kernel_A(seed, kh, kw), kernel_B(seed, kh, kw)
+    P, _ = _unit_sum_kernels(KA, KB)
+    masks = _dyn_masks(kh, kw)
+    for mname, m in masks:
+        assert refconv.footprint_inside(m, (kh, kw)) and (~m).any()
+    kerns = [("A", KA), ("P", P)] + ([("B", KB)] if full else [])
+    for name, K in kerns:
+        kern = aa.Kernel2D.no_mask(values=K.copy(), pixel_scales=PIXEL_SCALES)
+        tagk = "frame %dx%d kernel %s %dx%d" % (H, W, name, kh, kw)
+        convs = []
+        for mname, m in masks:
+            mask = aa.Mask2D(mask=m.copy(), pixel_scales=PIXEL_SCALES)
+            bmask = mask.derive_mask.blurring_from(kernel_shape_native=(kh, kw))
+            reach = refconv.reach_region(m, (kh, kw))
+            v.ok(dom.exact(~_a(bmask).astype(bool), reach), "blurring-region:derive_mask.blurring_from", "%s mask %s" % (tagk, mname))
+            convs.append((mname, m, mask, bmask, reach, aa.Convolver(mask=mask, kernel=kern)))
+        images = []
+        for level in DYN_LEVELS:
+            for iname, img in _dyn_images(seed, kh, kw, level):
+                images.append(("%s(%g)" % (iname, level), img))
+        # basis images on the first, a middle and the last frame pixel, coefficient 1 and the largest level
+        for s in (0, (H // 2) * W + W // 2, H * W - 1):
+            for c in (1.0, DYN_LEVELS[-1]):
+                e = np.zeros(H * W)
+                e[s] = c
+                images.append(("%g*e[flat %d]" % (c, s), e.reshape(H, W)))
+        for iname, img in images:
+            tag = "%s image %s" % (tagk, iname)
+            want = refconv.convolve_native_shift(img, K)
+            local = refconv.local_magnitude(img, K)
+            got = kern.convolved_array_from(array=aa.Array2D.no_mask(values=img.copy(), pixel_scales=PIXEL_SCALES))
+            v.ok(_close_local(_a(got.native), want, local), "Kernel2D.convolved_array_from:local-accuracy",
+                 lambda: "%s: %s" % (tag, _diff_local(_a(got.native), want, local)))
+            for mname, m, mask, bmask, reach, conv in convs:
+                u = ~m
+                seen = np.where(u | reach, img, 0.0)  # what the masked operator is given; identical to img on the footprints
+                w_u, l_u = want[u], local[u]
+                assert np.array_equal(refconv.convolve_native_shift(seen, K)[u], w_u)
+                g1 = conv.convolve_image(image=aa.Array2D(values=img.copy(), mask=mask),
+                                         blurring_image=aa.Array2D(values=img.copy(), mask=bmask))
+                v.ok(_close_local(_a(g1.slim), w_u, l_u), "convolve_image:local-accuracy",
+                     lambda: "%s mask %s: %s" % (tag, mname, _diff_local(_a(g1.slim), w_u, l_u)))
+                g2 = kern.convolved_array_with_mask_from(
+                    array=aa.Array2D.no_mask(values=img.copy(), pixel_scales=PIXEL_SCALES).native, mask=mask)
+                v.ok(_close_local(_a(g2.slim), w_u, l_u), "Kernel2D.convolved_array_with_mask_from:local-accuracy",
+                     lambda: "%s mask %s: %s" % (tag, mname, _diff_local(_a(g2.slim), w_u, l_u)))
+                v.ok(_close_local(_a(g2.slim), _a(g1.slim), l_u), "whole-frame-vs-convolver:with_mask_from",
+                     lambda: "%s mask %s: %s" % (tag, mname, _diff_local(_a(g2.slim), _a(g1.slim), l_u)))
+                v.ok(_close_local(_a(got.native)[u], _a(g1.slim), l_u), "whole-frame-vs-convolver:convolved_array_from",
+                     lambda: "%s mask %s: %s" % (tag, mname, _diff_local(_a(got.native)[u], _a(g1.slim), l_u)))
+        # padded -> blurred -> trimmed
+        py, px = kh // 2, kw // 2
+        for iname, img in images[:4]:
+            ub = aa.Mask2D.all_false(shape_native=(H, W), pixel_scales=PIXEL_SCALES).unmasked_blurred_array_from(
+                padded_array=aa.Array2D.no_mask(values=img.copy(), pixel_scales=PIXEL_SCALES), psf=kern,
+                image_shape=(H - 2 * py, W - 2 * px))
+            sl = (slice(py, H - py), slice(px, W - px))
+            want = refconv.convolve_native_shift(img, K)[sl]
+            local = refconv.local_magnitude(img, K)[sl]
+            v.ok(_close_local(_a(ub.native), want, local), "Mask2D.unmasked_blurred_array_from:local-accuracy",
+                 lambda: "%s image %s: %s" % (tagk, iname, _diff_local(_a(ub.native), want, local)))
+
+    # ---- simulator (noise off, no sky): data = whole-frame convolution; the generating image fits it with zero residual,
+    #      i.e. a residual no larger than the rounding of the two direct summations at that pixel
+    for level in DYN_LEVELS:
+        for iname, img0 in _dyn_images(seed, kh, kw, level):
+            img = np.abs(img0)
+            tag = "frame %dx%d psf |A|/sum %dx%d image |%s(%g)|" % (H, W, kh, kw, iname, level)
+            sim = _simulator(aa, P)
+            try:
+                ds = sim.via_image_from(image=aa.Array2D.no_mask(values=img.copy(), pixel_scales=PIXEL_SCALES))
+            except Exception as e:
+                v.ok(False, "SimulatorImaging.via_image_from:raised",
+                     "%s (non-negative image, non-negative psf): %s: %s" % (tag, type(e).__name__, e))
+                continue
+            want = refconv.convolve_native_shift(img, P)
+            local = refconv.local_magnitude(img, P)
+            v.ok(_close_local(_a(ds.data.native), want, local), "SimulatorImaging.via_image_from:data:local-accuracy",
+                 lambda: "%s: %s" % (tag, _diff_local(_a(ds.data.native), want, local)))
+            for mname, m in masks:
+                mask = aa.Mask2D(mask=m.copy(), pixel_scales=PIXEL_SCALES)
+                bmask = mask.derive_mask.blurring_from(kernel_shape_native=(kh, kw))
+                md = ds.apply_mask(mask=mask)
+                model = md.convolver.convolve_image(
+                    image=aa.Array2D(values=img.copy(), mask=mask), blurring_image=aa.Array2D(values=img.copy(), mask=bmask))
+                u = ~m
+                v.ok(_close_local(_a(md.data.slim), _a(model.slim), local[u]), "simulator-fit:residual:local-accuracy",
+                     lambda: "%s mask %s: %s" % (tag, mname, _diff_local(_a(md.data.slim), _a(model.slim), local[u])))
+    v.nontrivial = bool(kh * kw > 1)
+    v.outcome = "dyn:%dx%d" % (kh, kw)
+
+
+# ----------------------------------------------------------------------------- 'big': more pixels than an index width holds
+
+
+def _big_mask(T, holes, kh, kw):
+    """Smallest s x s or (s+1) x s block (filled, or with a lattice of holes and one masked row = two components), framed
+    by exactly the kernel half-widths, that has more than T + 2*(block width) unmasked pixels."""
+    hy, hx = kh // 2, kw // 2
+    s = max(2, int(np.sqrt(T)))
+    while True:
+        for bh, bw in ((s, s), (s + 1, s)):
+            blk = np.zeros((bh, bw), dtype=bool)
+            if holes:
+                i, j = np.indices((bh, bw))
+                blk = ((3 * i + 5 * j) % 11 == 0) | (i == bh // 2)
+            if int((~blk).sum()) > T + 2 * bw:
+                m = np.ones((bh + 2 * hy, bw + 2 * hx), dtype=bool)
+                m[hy:hy + bh, hx:hx + bw] = blk
+                return m
+        s += 1
+
+
+def run_big(aa, v, T, holes, kh, kw, seed, full=0):
+    """Masks whose slim indexes do not fit the next-smaller integer width: the complete operator is extracted with kh*kw
+    'comb' images (sources on a lattice of period (kh, kw): their footprints are disjoint, so every operator entry is seen
+    separately) and compared with the shift-and-add reference."""
+    m = _big_mask(T, holes, kh, kw)
+    H, W = m.shape
+    u = ~m
+    n = int(u.sum())
+    assert n > T + 1 and refconv.footprint_inside(m, (kh, kw))
+    mask = aa.Mask2D(mask=m.copy(), pixel_scales=PIXEL_SCALES)
+    reach = _reach_fast(m, (kh, kw))
+    if H * W <= 400:
+        assert np.array_equal(reach, refconv.reach_region(m, (kh, kw)))
+    bmask = mask.derive_mask.blurring_from(kernel_shape_native=(kh, kw))
+    bm = _a(bmask).astype(bool)
+    tag0 = "frame %dx%d, %d unmasked pixels (> %d), %s, kernel %dx%d" % (
+        H, W, n, T, "holes + two components" if holes else "filled block", kh, kw)
+    v.ok(dom.exact(~bm, reach), "blurring-region:derive_mask.blurring_from", tag0)
+    v.nontrivial = True
+    v.outcome = "big:%d:%s:%dx%d" % (T, "holes" if holes else "block", kh, kw)
+    if not dom.exact(~bm, reach):
+        return
+    yy, xx = np.indices((H, W))
+    flat = yy * W + xx
+    wgt = (1.0 + flat / float(H * W)) * np.where((yy // kh + xx // kw) % 3 == 0, -1.0, 1.0)
+    dense = image_native(seed, H, W, salt=3)
+    dense[H // 3:H // 3 + 2 * kh + 2, :] = 0.0  # an exact-zero band wider than the kernel
+    KA, KB = kernel_A(seed, kh, kw), kernel_B(seed, kh, kw)
+    for name, K in [("A", KA)] + ([("B", KB)] if full else []):
+        tag = "%s %s" % (tag0, name)
+        kern = aa.Kernel2D.no_mask(values=K.copy(), pixel_scales=PIXEL_SCALES)
+        conv = aa.Convolver(mask=mask, kernel=kern)
+        v.ok(dom.exact(np.asarray(conv.blurring_mask).astype(bool), bm), "blurring-region:Convolver.blurring_mask", tag)
+        cols = []
+        for a in range(kh):
+            for b in range(kw):
+                c = COEFS[(a * kw + b) % len(COEFS)]
+                comb = np.where((yy % kh == a) & (xx % kw == b), c * wgt, 0.0)
+                seen = np.where(u | reach, comb, 0.0)
+                want = refconv.convolve_native_shift(seen, K)[u]
+                local = refconv.local_magnitude(seen, K)[u]
+                got = _a(conv.convolve_image(image=aa.Array2D(values=comb[u], mask=mask),
+                                             blurring_image=aa.Array2D(values=comb[~bm], mask=bmask)).slim)
+                v.ok(_close_local(got, want, local), "convolve_image",
+                     lambda: "%s | comb image (%d,%d) mod (%d,%d), coefficient %g: %s" % (tag, a, b, kh, kw, c, _diff_local(got, want, local)))
+                inner = np.where(u, comb, 0.0)
+                want_nb = refconv.convolve_native_shift(inner, K)[u]
+                local_nb = refconv.local_magnitude(inner, K)[u]
+                got = _a(conv.convolve_image_no_blurring(image=aa.Array2D(values=comb[u], mask=mask)).slim)
+                v.ok(_close_local(got, want_nb, local_nb), "convolve_image_no_blurring",
+                     lambda: "%s | comb image (%d,%d) mod (%d,%d), coefficient %g: %s" % (tag, a, b, kh, kw, c, _diff_local(got, want_nb, local_nb)))
+                cols.append((comb[u], want_nb, local_nb))
+        inner = np.where(u, dense, 0.0)
+        cols.append((dense[u], refconv.convolve_native_shift(inner, K)[u], refconv.local_magnitude(inner, K)[u]))
+        X = np.stack([c[0] for c in cols], axis=1)
+        got = np.asarray(conv.convolve_mapping_matrix(mapping_matrix=X.copy()))
+        wantX = np.stack([c[1] for c in cols], axis=1)
+        localX = np.stack([c[2] for c in cols], axis=1)
+        v.ok(_close_local(got, wantX, localX), "convolve_mapping_matrix",
+             lambda: "%s | columns = comb images + dense signed column: %s" % (tag, _diff_local(got, wantX, localX)))
+
+        # dense signed image with an exact-zero band, garbage outside mask + blurring region; whole-frame convolutions
+        want_f = refconv.convolve_native_shift(dense, K)
+        local_f = refconv.local_magnitude(dense, K)
+        g1 = conv.convolve_image(image=aa.Array2D(values=dense.copy(), mask=mask), blurring_image=aa.Array2D(values=dense.copy(), mask=bmask))
+        v.ok(_close_local(_a(g1.slim), want_f[u], local_f[u]) and dom.exact(_a(g1.mask), m), "convolve_image",
+             lambda: "%s | dense image: %s" % (tag, _diff_local(_a(g1.slim), want_f[u], local_f[u])))
+        farr = aa.Array2D.no_mask(values=dense.copy(), pixel_scales=PIXEL_SCALES)
+        g2 = kern.convolved_array_from(array=farr)
+        v.ok(_close_local(_a(g2.native), want_f, local_f), "Kernel2D.convolved_array_from:local-accuracy",
+             lambda: "%s | dense image: %s" % (tag, _diff_local(_a(g2.native), want_f, local_f)))
+        g3 = kern.convolved_array_with_mask_from(array=farr.native, mask=mask)
+        v.ok(_close_local(_a(g3.slim), want_f[u], local_f[u]) and dom.exact(_a(g3.mask), m),
+             "Kernel2D.convolved_array_with_mask_from:local-accuracy",
+             lambda: "%s | dense image: %s" % (tag, _diff_local(_a(g3.slim), want_f[u], local_f[u])))
+        v.ok(_close_local(_a(g3.slim), _a(g1.slim), local_f[u]), "whole-frame-vs-convolver:with_mask_from",
+             lambda: "%s | dense image: %s" % (tag, _diff_local(_a(g3.slim), _a(g1.slim), local_f[u])))
+
+    # simulator on the large frame (noise off, no sky): data = whole-frame convolution at every pixel
+    P, _ = _unit_sum_kernels(KA, KB)
+    img = np.abs(dense)
+    ds = _simulator(aa, P).via_image_from(image=aa.Array2D.no_mask(values=img.copy(), pixel_scales=PIXEL_SCALES))
+    want = refconv.convolve_native_shift(img, P)
+    local = refconv.local_magnitude(img, P)
+    v.ok(_close_local(_a(ds.data.native), want, local), "SimulatorImaging.via_image_from:data:local-accuracy",
+         lambda: "%s psf |A|/sum: %s" % (tag0, _diff_local(_a(ds.data.native), want, local)))
